@@ -141,6 +141,16 @@ def double_ensure_same_tuple(person, pref):
             ' ENSURE PROPOSITION ?p2 (?a, "prefers", ?d)\n}' % (person, person.capitalize(), pref, pref))
 
 
+def double_ensure_anonymous(person, pref, first_named=True):
+    """The same NEW tuple twice in one block, one of the clauses without a handle."""
+    first = ' ENSURE PROPOSITION ?p1 (?a, "prefers", ?d)\n' if first_named else ' ENSURE PROPOSITION (?a, "prefers", ?d)\n'
+    return ('MUTATE {\n'
+            ' UPSERT CONCEPT ?a { MATCH {type: "Person", key: "person:%s"} SET FIELDS {name: "%s"} }\n'
+            ' UPSERT CONCEPT ?d { MATCH {type: "Preference", key: "pref:%s"} SET FIELDS {name: "%s"} }\n'
+            '%s'
+            ' ENSURE PROPOSITION (?a, "prefers", ?d)\n}' % (person, person.capitalize(), pref, pref, first))
+
+
 def purge(name):
     return 'PURGE "$id(%s)" CONFIRM "PURGE"' % name
 
@@ -192,6 +202,7 @@ def bad_statements(rng):
     return rng.choice([
         expect_version_fails(p), unknown_type_last(p), unknown_type_first(p), unknown_type_middle(p, rng.choice(PERSONS)),
         key_conflict_at_commit(p), create_person(p, "Dup " + p), unbound_handle(), double_ensure_same_tuple(p, rng.choice(PREFS)),
+        double_ensure_anonymous(p, rng.choice(PREFS), rng.random() < 0.5),
         purge_then_conflict(p.capitalize(), rng.choice(PERSONS)),
     ])
 
